@@ -338,4 +338,115 @@ Proof.
   rewrite get_tabulate by (rewrite Hs; cbn [inb]; split; [apply perm_bound; assumption | exact HJ]).
   reflexivity.
 Qed.
+
+(* ---------- re-ordering / re-sampling the rows: every score and every deflation acts sample by sample ---------- *)
+Lemma scores_length X ls : length (scores Op X ls) = nsamp X.
+Proof. unfold scores. now rewrite map_length, seq_length. Qed.
+
+Lemma nth_scores X ls i : i < nsamp X -> nth i (scores Op X ls) (f0 Op) = score Op X ls i.
+Proof.
+  intros Hi. unfold scores. rewrite (nth_map' (score Op X ls) _ _ 0) by (now rewrite seq_length).
+  now rewrite seq_nth.
+Qed.
+
+Lemma scores_perm p X ls n sx : shape X = n :: sx -> rows_ok n p ->
+  scores Op (perm_samples Op p X) ls = pick Op n p (scores Op X ls).
+Proof.
+  intros Hs Hp. unfold scores at 1, pick.
+  assert (Hn : nsamp (perm_samples Op p X) = n) by (unfold nsamp; cbn [perm_samples tabulate shape]; now rewrite Hs).
+  rewrite Hn. apply map_ext_in. intros i Hi. apply in_seq in Hi.
+  rewrite nth_scores by (unfold nsamp; rewrite Hs; cbn [hd]; apply Hp; lia).
+  unfold score, sshape. cbn [perm_samples tabulate shape]. rewrite Hs. cbn [tl].
+  apply sum_idx_ext. intros J HJ. f_equal.
+  apply (tget_perm_samples p X i J n sx); auto; lia.
+Qed.
+
+Lemma nth_pick n p t i : i < n -> nth i (pick Op n p t) (f0 Op) = nth (nth i p 0) t (f0 Op).
+Proof.
+  intros Hi. unfold pick. rewrite (nth_map' (fun i => nth (nth i p 0) t (f0 Op)) _ _ 0) by (now rewrite seq_length).
+  now rewrite seq_nth.
+Qed.
+
+Lemma tget_deflate X ls t idx : inb (shape X) idx ->
+  tget (deflate Op X ls t) idx = fsub Op (tget X idx) (fmul Op (nth (hd 0 idx) t (f0 Op)) (rank1 Op ls (tl idx))).
+Proof. intros H. unfold Regress.tget at 1. unfold deflate. now rewrite get_tabulate. Qed.
+Lemma tget_center X m idx : inb (shape X) idx ->
+  tget (center Op X m) idx = fsub Op (tget X idx) (tget m (tl idx)).
+Proof. intros H. unfold Regress.tget at 1. unfold center. now rewrite get_tabulate. Qed.
+
+Lemma deflate_perm p X ls t n sx : shape X = n :: sx -> rows_ok n p ->
+  deflate Op (perm_samples Op p X) ls (pick Op n p t) = perm_samples Op p (deflate Op X ls t).
+Proof.
+  intros Hs Hp.
+  change (tabulate (shape X) (fun idx => fsub Op (tget (perm_samples Op p X) idx)
+            (fmul Op (nth (hd 0 idx) (pick Op n p t) (f0 Op)) (rank1 Op ls (tl idx)))) =
+          tabulate (shape X) (fun idx => tget (deflate Op X ls t) (nth (hd 0 idx) p 0 :: tl idx))).
+  apply tabulate_ext. intros idx Hi. rewrite Hs in Hi.
+  destruct (inb_cons_inv _ _ _ Hi) as (i & J & -> & Hin & HJ). cbn [hd tl].
+  rewrite (tget_perm_samples p X i J n sx Hs Hin HJ), nth_pick by exact Hin.
+  rewrite tget_deflate by (rewrite Hs; cbn [inb]; split; [apply Hp; exact Hin | exact HJ]).
+  reflexivity.
+Qed.
+
+Theorem transform_cols_perm p loads : forall X n sx, shape X = n :: sx -> rows_ok n p ->
+  transform_cols Op (perm_samples Op p X) loads = map (pick Op n p) (transform_cols Op X loads).
+Proof.
+  induction loads as [|ls rest IH]; intros X n sx Hs Hp; [reflexivity|].
+  cbn [transform_cols map]. rewrite (scores_perm p X ls n sx Hs Hp). f_equal.
+  rewrite (deflate_perm p X ls _ n sx Hs Hp). apply (IH _ n sx); auto.
+Qed.
+
+Lemma center_rows p X m n sx : shape X = n :: sx -> rows_ok n p ->
+  center Op (perm_samples Op p X) m = perm_samples Op p (center Op X m).
+Proof.
+  intros Hs Hp.
+  change (tabulate (shape X) (fun idx => fsub Op (tget (perm_samples Op p X) idx) (tget m (tl idx))) =
+          tabulate (shape X) (fun idx => tget (center Op X m) (nth (hd 0 idx) p 0 :: tl idx))).
+  apply tabulate_ext. intros idx Hi. rewrite Hs in Hi.
+  destruct (inb_cons_inv _ _ _ Hi) as (i & J & -> & Hin & HJ). cbn [hd tl].
+  rewrite (tget_perm_samples p X i J n sx Hs Hin HJ).
+  rewrite tget_center by (rewrite Hs; cbn [inb]; split; [apply Hp; exact Hin | exact HJ]).
+  reflexivity.
+Qed.
+
+Lemma transform_cols_length X loads : length (transform_cols Op X loads) = length loads.
+Proof. revert X; induction loads; intros X; simpl; auto. Qed.
+
+(* transform (hence predict) of re-ordered samples = re-ordered transform *)
+Theorem transform_perm p xmean loads X n sx i c : shape X = n :: sx -> rows_ok n p -> i < n -> c < length loads ->
+  tget (transform Op xmean loads (perm_samples Op p X)) [i; c] = tget (transform Op xmean loads X) [nth i p 0; c].
+Proof.
+  intros Hs Hp Hi Hc. unfold transform.
+  assert (Hn : nsamp (perm_samples Op p X) = n) by (unfold nsamp; cbn [perm_samples tabulate shape]; now rewrite Hs).
+  assert (Hn' : nsamp X = n) by (unfold nsamp; now rewrite Hs).
+  rewrite Hn, Hn'. rewrite (center_rows p X xmean n sx Hs Hp).
+  rewrite (transform_cols_perm p loads (center Op X xmean) n sx Hs Hp).
+  unfold cols_to_matrix. rewrite map_length.
+  unfold Regress.tget. rewrite !get_tabulate by (rewrite transform_cols_length; cbn [inb]; auto).
+  cbn [nth].
+  rewrite (nth_map' (pick Op n p) _ _ []) by (now rewrite transform_cols_length).
+  apply nth_pick. exact Hi.
+Qed.
+
+(* ---------- ring part of the prediction shift ---------- *)
+Lemma transform_shift xm loads X c : shape xm = sshape X ->
+  transform Op (tadd Op xm c) loads (shift Op X c) = transform Op xm loads X.
+Proof.
+  intros H. unfold transform. rewrite (center_shift X xm c H). reflexivity.
+Qed.
+
+Theorem plsr_predict_shift xm ym loads coef yl X c d m i o :
+  shape xm = sshape X -> shape ym = [m] -> nth 0 (shape yl) 0 = m -> i < nsamp X -> o < m ->
+  tget (plsr_predict Op (tadd Op xm c) (tadd Op ym d) loads coef yl (shift Op X c)) [i; o] =
+  fadd Op (tget (plsr_predict Op xm ym loads coef yl X) [i; o]) (tget d [o]).
+Proof.
+  intros Hx Hy Hyl Hi Ho. unfold plsr_predict. rewrite (transform_shift xm loads X c Hx).
+  change (nsamp (shift Op X c)) with (nsamp X). rewrite Hyl.
+  unfold Regress.tget at 1. rewrite get_tabulate by (cbn [inb]; auto).
+  unfold Regress.tget at 5. rewrite get_tabulate by (cbn [inb]; auto).
+  cbn [nth].
+  assert (E : tget (tadd Op ym d) [o] = fadd Op (tget ym [o]) (tget d [o])).
+  { unfold Regress.tget at 1. unfold tadd. rewrite get_tabulate by (rewrite Hy; cbn [inb]; auto). reflexivity. }
+  rewrite E. ring.
+Qed.
 End Ring.
